@@ -323,11 +323,21 @@ func vfC09Case(rt *rapid.T, c *ev.Collector) {
 	budget := 6000
 	var hist []string
 	seedDelivered := !withhold
+	seedSplit := false
 	largeWrite := false
 	peerSeed := false
 	for i := 0; i < nw; i++ {
 		if withhold && !seedDelivered && (i == nw-1 || rapid.Bool().Draw(rt, "deliverSeedNow")) {
 			s.N.Inject(s.RefSide, s.HeldSeedFrame)
+			// the frame may reach the client in two pieces (a segment boundary inside it)
+			if cut := rapid.IntRange(0, len(s.HeldSeedFrame)-1).Draw(rt, "seedFrameCut"); cut > 0 && rapid.Bool().Draw(rt, "seedFrameSplit") {
+				s.N.Release(s.RefSide, cut)
+				if err := s.N.WaitQuiescent(s.RealSide); err != nil {
+					rt.Fatalf("VIOL[c09-wedge]: %v", err)
+				}
+				seedSplit = true
+				hist = append(hist, fmt.Sprintf("seed-frame-first-%d-bytes", cut))
+			}
 			s.N.ReleaseAll(s.RefSide)
 			if err := s.N.WaitQuiescent(s.RealSide); err != nil {
 				rt.Fatalf("VIOL[c09-wedge]: %v", err)
@@ -485,6 +495,9 @@ func vfC09Case(rt *rapid.T, c *ev.Collector) {
 		}
 		woff += n
 	}
+	if seedSplit {
+		cls = append(cls, "client-seed-frame-in-two-pieces")
+	}
 	if withhold {
 		cls = append(cls, "client-seed-frame-withheld-then-delivered")
 	}
@@ -506,11 +519,12 @@ func vfC09Case(rt *rapid.T, c *ev.Collector) {
 func TestVerifC09EndToEnd(t *testing.T) {
 	vfSetup(t)
 	c := ev.For("C09")
-	c.Rule("end-to-end: real client or real server (public factories) against the reference peer; generated seed (uniform, or pre-searched: table contains 0 / contains 1448 / has <= 3 entries / has one entry / the shuffle passes through a rejected draw), whose table must equal the independent statement of the deployed seed -> table mapping (refdist), IAT mode, bias flag, 1-5 writes of 0..6000 bytes (iat-mode 0: one in six up to 300000 bytes, incl. 32768 / 65536 / 131072 and neighbours); the live length table of the connection is read by reflection before each write; oracle on the logged wire writes: mode 0 one write per burst whose length is explained by some table value under the padding arithmetic, mode 1 additionally segments of exactly 1448 except the last, mode 2 every write is a non-zero table value (1448 when 0 is in the table); the reference peer opens every frame (<= 1448, payload intact); a client uses the server's table once the seed frame has been processed (half of the client cases withhold the seed frame first); a bridge keeps its own table when the client sends it a PRNG-seed packet (24 bytes, or 0 / 23 / 25); Write returns without panic; non-trivial = table with <= 3 entries or containing 0 or 1448, or a padding need of 1..21; fingerprint = seed, mode, sizes, randomness key")
+	c.Rule("end-to-end: real client or real server (public factories) against the reference peer; generated seed (uniform, or pre-searched: table contains 0 / contains 1448 / has <= 3 entries / has one entry / the shuffle passes through a rejected draw), whose table must equal the independent statement of the deployed seed -> table mapping (refdist), IAT mode, bias flag, 1-5 writes of 0..6000 bytes (iat-mode 0: one in six up to 300000 bytes, incl. 32768 / 65536 / 131072 and neighbours); the live length table of the connection is read by reflection before each write; oracle on the logged wire writes: mode 0 one write per burst whose length is explained by some table value under the padding arithmetic, mode 1 additionally segments of exactly 1448 except the last, mode 2 every write is a non-zero table value (1448 when 0 is in the table); the reference peer opens every frame (<= 1448, payload intact); a client uses the server's table once the seed frame has been processed (half of the client cases withhold the seed frame first, and half of those deliver it in two pieces cut at a drawn offset); a bridge keeps its own table when the client sends it a PRNG-seed packet (24 bytes, or 0 / 23 / 25); Write returns without panic; non-trivial = table with <= 3 entries or containing 0 or 1448, or a padding need of 1..21; fingerprint = seed, mode, sizes, randomness key")
 	c.Floor("seed-has0/e2e", 0.15)
 	c.Floor("iat-2/e2e", 0.15)
 	c.Floor("iat-1/e2e", 0.10)
 	c.Floor("client-sent-seed-packet-to-bridge/e2e", 0.05)
+	c.Floor("client-seed-frame-in-two-pieces/e2e", 0.05)
 	rapid.Check(t, func(rt *rapid.T) { vfC09Case(rt, c) })
 }
 
